@@ -3,6 +3,7 @@ package props
 import (
 	"encoding/json"
 	"fmt"
+	"math/big"
 	"reflect"
 	"sort"
 	"strings"
@@ -112,9 +113,16 @@ func c15Run(w *mc.W, h c15History, observe bool) (stateKey string, nslots int) {
 			case "fromstring":
 				seed := mc.UnHex(c15Seeds["A"])
 				x, _, rk := c04RefMaster(seed)
-				if op.Arg == "xpub" {
+				if op.Arg == "xpub" || op.Arg == "xpub-twin" {
 					x = x.Neuter()
 					rk += "N"
+				}
+				if op.Arg == "xpub-twin" {
+					// the same X with the other Y parity: the negated point, a valid key of its own whose
+					// derivations differ from the original's
+					t := *x
+					t.P = ref.Point{X: new(big.Int).Set(x.P.X), Y: new(big.Int).Sub(ref.SecP, x.P.Y)}
+					x, rk = &t, rk+"T"
 				}
 				k, err := hdkeychain.NewKeyFromString(x.String(ref.Nets[0]))
 				if err != nil {
@@ -363,7 +371,7 @@ func c15Menu(nslots int, maxSlots int) []c15Op {
 	var ops []c15Op
 	if nslots < maxSlots {
 		ops = append(ops, c15Op{Op: "master", Arg: "A/mainnet"}, c15Op{Op: "master", Arg: "B/testnet3"},
-			c15Op{Op: "fromstring", Arg: "xprv"}, c15Op{Op: "fromstring", Arg: "xpub"}, c15Op{Op: "newext"})
+			c15Op{Op: "fromstring", Arg: "xprv"}, c15Op{Op: "fromstring", Arg: "xpub"}, c15Op{Op: "fromstring", Arg: "xpub-twin"}, c15Op{Op: "newext"})
 	}
 	for s := 0; s < nslots; s++ {
 		if nslots < maxSlots {
@@ -383,7 +391,7 @@ func runC15(c *mc.Ctx) {
 	c04SelfTest()
 	depth := mc.Pick(c, 4, 5)
 	maxSlots := mc.Pick(c, 3, 4)
-	c.Rule(fmt.Sprintf("breadth-first search over all operation histories of depth <= %d on a pool of <= %d keys (menu: NewMaster x2, NewKeyFromString x2, NewExtendedKey, Child(0|2^31|two hardened indices with a short child scalar), Neuter, SetNet x2, Zero, String, ECPubKey, ECPrivKey, Address, the cheap getters per slot); histories are merged only when the model state AND the implementation's buffer-sharing graph and memo flags (read by reflection) agree; every reached state is observed on all slots; non-trivial = states in which two live keys share a backing buffer or a key has been zeroed", depth, maxSlots))
+	c.Rule(fmt.Sprintf("breadth-first search over all operation histories of depth <= %d on a pool of <= %d keys (menu: NewMaster x2, NewKeyFromString x3 (xprv, xpub and the xpub's parity twin), NewExtendedKey, Child(0|2^31|two hardened indices with a short child scalar), Neuter, SetNet x2, Zero, String, ECPubKey, ECPrivKey, Address, the cheap getters per slot); histories are merged only when the model state AND the implementation's buffer-sharing graph and memo flags (read by reflection) agree; every reached state is observed on all slots; non-trivial = states in which two live keys share a backing buffer or a key has been zeroed", depth, maxSlots))
 	c.Assume("reference BIP32 model correct (vectors 1-3 reproduced)")
 	c.Assume("operations applied to an already zeroed key are outside the statement and are not issued")
 
